@@ -510,3 +510,8 @@ func (r *Reader) checkTyped(m spec.Message, tag uint16, n *gen.Node, path string
 	}
 	return nil
 }
+
+// CheckTyped exposes the typed-accessor check of one message field.
+func CheckTyped(r *Reader, m spec.Message, tag uint16, n *gen.Node) error {
+	return r.checkTyped(m, tag, n, "msg")
+}
